@@ -728,6 +728,30 @@ func fF1F3(p *Prog, o *obls, fn *ssa.Function) {
 					}
 				}
 			}
+			// F3d: s[:len(s)-k] drops the last k elements — of a slice that has them. Without a comparison of len(s) with a
+			// constant on the way (len(s) > 0, len(s) >= k) the bound is negative for an empty or nil slice: a buffer that
+			// another branch has just reset
+			if x.High != nil && (x.Low == nil) {
+				if sub, isSub := p.origin(x.High).(*ssa.BinOp); isSub && sub.Op == token.SUB {
+					if k, isK := constInt(sub.Y); isK && k > 0 {
+						if lc, isLen := p.origin(sub.X).(*ssa.Call); isLen && builtinName(&lc.Call) == "len" && p.pureKey(lc.Call.Args[0]) == baseKey {
+							isLenV := func(v ssa.Value) bool {
+								c, ok := v.(*ssa.Call)
+								return ok && builtinName(&c.Call) == "len" && p.pureKey(c.Call.Args[0]) == baseKey
+							}
+							isConstV := func(v ssa.Value) bool { _, ok := v.(*ssa.Const); return ok }
+							if g, gw := p.guardedBy(x, isLenV, isConstV); g {
+								o.ok("F3", construct, p.instrPos(x), "the length is compared with a constant first ("+gw+")")
+							} else if f3LoopBounded(p, x, baseKey) {
+								o.ok("F3", construct, p.instrPos(x), "inside a loop that runs while the slice is not empty")
+							} else {
+								o.bad("F3", construct, p.instrPos(x), fmt.Sprintf("the slice is cut to len-%d without a test that it holds that many elements: for an empty or nil slice (a buffer that another branch has just reset) the bound is negative and the expression panics", k))
+							}
+							return
+						}
+					}
+				}
+			}
 			// F3: both bounds non-constant and from different sources
 			if x.Low == nil || x.High == nil {
 				return
@@ -2143,4 +2167,27 @@ func beliefBacked(p *Prog, fn *ssa.Function, call *ssa.Call, user ssa.Instructio
 		return ""
 	}
 	return fmt.Sprintf("the object is used at %s although the constructor's error is discarded, and the function that builds a %s does not call %s on the same field(s) and fail when it fails: an argument the constructor rejects (it then returns nil) reaches this use", p.instrPos(user), recvT.Obj().Name(), sc.Name())
+}
+
+// f3LoopBounded: the slice expression sits in a loop whose condition compares len(base) with a constant.
+func f3LoopBounded(p *Prog, x *ssa.Slice, baseKey string) bool {
+	for _, body := range naturalLoops(x.Parent()) {
+		if !body[x.Block()] {
+			continue
+		}
+		for b := range body {
+			bo, ok := ifCond(b).(*ssa.BinOp)
+			if !ok {
+				continue
+			}
+			for _, pr := range [][2]ssa.Value{{bo.X, bo.Y}, {bo.Y, bo.X}} {
+				c, isCall := p.origin(pr[0]).(*ssa.Call)
+				_, isConst := pr[1].(*ssa.Const)
+				if isCall && isConst && builtinName(&c.Call) == "len" && p.pureKey(c.Call.Args[0]) == baseKey {
+					return true
+				}
+			}
+		}
+	}
+	return false
 }
